@@ -7,7 +7,7 @@ def E(technique, text, note, ref):
     return dict(technique=technique, text=text, note=note, ref=ref)
 COMMON_NOTE = " Trusted base: CPython, NumPy, the pyxabmon harness (driver, ledger, reference models). Open findings are matched by mechanism against known_findings.json."
 CHECKS = {
- "C01": E("runtime monitoring: API-boundary oracle on every pull/receive_reward/get_last_point of the real loop + sys.monitoring logical step budget + injected RNG end-point outcomes + recommendation probes at intermediate stopping times on deep copies",
+ "C01": E("runtime monitoring: API-boundary oracle on every pull/receive_reward/get_last_point of the real loop + sys.monitoring logical step budget + injected RNG end-point outcomes + recommendation probes at intermediate stopping times on deep copies + parameter draws at the far corners of the documented ranges",
           "Exploration by execution: the real ask/tell loop is driven for hundreds (quick) to tens of thousands (thorough) of generated configurations x histories; every returned point is checked against the user's box, every exception and every call exceeding the logical step budget is a violation. Totality over an infinite configuration space cannot be established by running; the evidence says what was run.",
           "Assumes boxes with |lo+hi|<=1e300, SOO/StoSOO caps = smallest cap holding the budget." + COMMON_NOTE, "DESIGN.md 4/C01"),
  "C02": E("runtime monitoring: bit-exact tiling oracle at every make_children (instrumented subclasses + icontract post-condition on the real method), hostile float boxes (adjacent floats, subnormal/ulp grids, aliased interval lists), K up to 16, injected RNG outcomes, leaf-tiling walker",
@@ -26,13 +26,13 @@ CHECKS = {
           "Every expansion event of the tree bandits is judged (only in receive_reward, at most one, under the pulled cell, a leaf, children fresh) and every round's expand/not-expand decision is compared with the published rule recomputed from the ledger.",
           "Same band and conventions as C05." + COMMON_NOTE, "DESIGN.md 4/C06"),
  "C07": E("runtime monitoring: ledger of (cell, reward) vs. the cell returned by get_last_point (identity), recording learners for POO/GPO",
-          "The recommendation of DOO/SOO/SequOOL/StoSOO/StroquOOL/POO/GPO/PCT/VPCT is compared with the best candidate recomputed from the ledger on workloads that over-weight negative, tied, monotone and best-first/best-last reward sequences; also queried mid-run.",
+          "The recommendation of DOO/SOO/SequOOL/StoSOO/StroquOOL/POO/GPO/PCT/VPCT is compared with the best candidate recomputed from the ledger on workloads that over-weight negative, tied, monotone and best-first/best-last reward sequences; also queried mid-run (sparsely in half of the runs, after every round in the other half).",
           "Ties accept any maximiser; early stops where get_last_point raises are C01 findings." + COMMON_NOTE, "DESIGN.md 4/C07"),
- "C08": E("runtime monitoring: pre-split snapshots of tree+ledger at every make_children, hand-out oracle at every pull, tight and sufficient depth caps",
+ "C08": E("runtime monitoring: pre-split snapshots of tree+ledger at every make_children, hand-out oracle at every pull, tight and sufficient depth caps, hostile environment that chooses rewards so that b-values tie bit for bit",
           "Every expansion and every hand-out of SOO/StoSOO/DOO is judged against the tree and the ledger as they were at that moment (evaluated, best of depth / of all leaves, no unevaluated predecessor, within the cap, at most k evaluations, first unevaluated leaf top-down / max-b leaf).",
           "DOO default delta recomputed from cell boxes; b-values rel. 1e-9." + COMMON_NOTE, "DESIGN.md 4/C08"),
  "C09": E("runtime monitoring: recording subclass of the base learner + reference schedule; complete enumeration of (n, rhomax) grid with a stub learner",
-          "The trace of constructor calls / pulls / rewards per learner, returned point objects and validation scores of GPO/PCT/VPCT must equal the published schedule; the schedule is enumerated completely over every n in a range x a rhomax grid with an O(1) stub learner, and sampled with the real learners.",
+          "The trace of constructor calls / pulls / rewards per learner, returned point objects and validation scores of GPO/PCT/VPCT must equal the published schedule; the schedule is enumerated completely over every n in a range x a rhomax grid with an O(1) stub learner, and sampled with the real learners; stub budgets up to 20000 rounds (half-phase lengths up to several thousand).",
           "Near-integer N skipped as ambiguous; H==0 is a C01 finding." + COMMON_NOTE, "DESIGN.md 4/C09"),
  "C10": E("runtime monitoring: recording subclass of the base learner, per-learner ledger vs V_reward/Times after every round",
           "Per round exactly one base pull and one base receive_reward on the same learner with the same reward; learners only appended with numax and fresh grid rho; scores and counts equal ledger means and counts after every round; get_last_point = proposal of a best-scoring learner. Stub-learner horizons up to 20000 plus real learners.",
@@ -56,7 +56,7 @@ CHECKS = {
           "Exact tier: dyadic boxes, power-of-two scaling, dyadic translation on the midpoint partitions, compared bit for bit while coordinates stay exactly representable; tolerance tier: arbitrary positive scaling and translation on all partitions.",
           "VROOM and deep cells only in the tolerance tier; DOO default delta translation only." + COMMON_NOTE, "DESIGN.md 4/C16"),
  "C17": E("runtime monitoring: sampling oracle on the real f (uniform + float neighbours of maximisers / discontinuities / end points), purity and wrong-dimension probes",
-          "Millions of evaluations of every objective on its documented domain: finite and <= fmax (exact comparison), fmax attained at the maximiser, Garland's gap < 0.003, pure, inputs and attributes untouched, wrong dimension -> ValueError. Sampling can refute the bound, never establish it over the continuum.",
+          "Millions of evaluations of every objective on its documented domain: finite and <= fmax (exact comparison), fmax attained at the maximiser, Garland's gap < 0.003, pure, inputs and attributes untouched, wrong dimension -> ValueError, an exception on a point of the documented closed domain is a violation. Sampling can refute the bound, never establish it over the continuum.",
           "Sampled floats only." + COMMON_NOTE, "DESIGN.md 4/C17"),
 }
 def main():
